@@ -71,13 +71,14 @@ def detect_scratch(sid, props, tier="quick"):
             print("patch does not apply:", a.stdout)
             return 2
         for p in props:
-            r = sh("cd %s && VERIF_REPO=%s bin/check %s --tier %s" % (common.VERIF, wt, p, tier), timeout=7200)
+            r = sh("cd %s && VERIF_REPO=%s VERIF_EVIDENCE=%s bin/check %s --tier %s" % (common.VERIF, wt, wt + "-evidence", p, tier), timeout=7200)
             viol = [l for l in r.stdout.splitlines() if l.startswith("VIOLATION")]
             results[p] = {"exit": r.returncode, "violations": len(viol), "first": viol[:2], "tail": r.stdout.strip().splitlines()[-1:]}
             print(p, "exit", r.returncode, "violations", len(viol), (viol[0][:260] if viol else r.stdout.strip().splitlines()[-1][:200]))
     finally:
         sh("git -C %s worktree remove --force %s" % (common.REPO, wt))
         shutil.rmtree(wt, ignore_errors=True)
+        shutil.rmtree(wt + "-evidence", ignore_errors=True)
     mp = os.path.join(out, "meta.json")
     meta = json.load(open(mp))
     meta.setdefault("detection", {})[tier] = results
